@@ -67,6 +67,8 @@ val skipn : nat -> 'a1 list -> 'a1 list
 
 val seq : nat -> nat -> nat list
 
+val repeat : 'a1 -> nat -> 'a1 list
+
 type positive =
 | XI of positive
 | XO of positive
@@ -375,8 +377,9 @@ type op =
 | OFirst
 | OLast
 | OGet of nat
-| OStore of bool
+| OStore of bool * nat * nat
 | ODelete of nat
+| OTrunc of nat
 | OSet
 | OGetS
 | OClose
@@ -390,12 +393,13 @@ type outcome =
 | MetaErr
 | Panic
 
-type hnd = { h_base : nat; h_cnt : nat; h_sealed : bool; h_closes : nat }
+type hnd = { h_base : nat; h_ents : nat list; h_wr : nat; h_syn : nat;
+             h_cnt : nat; h_sealed : bool; h_closes : nat }
 
 type fin =
 | FUnset
 | FNil
-| FSet of nat list
+| FSet of nat list * nat
 
 type st = { s_ref : nat; s_fin : fin; s_open : bool; s_segs : nat list;
             s_min : nat }
@@ -410,10 +414,12 @@ type kont =
 | KUnlock
 | KOuter of nat
 | KRot
+| KRetry
 
 type pc =
 | PIdle
 | PChecked
+| PStErr
 | PLock
 | PLocked
 | PWaiting of nat
@@ -423,6 +429,10 @@ type pc =
 | PLoaded of nat
 | PAcq of nat
 | PBody of nat
+| PGetRead of nat * nat
+| PApp1 of nat
+| PApp2 of nat
+| PApp3 of nat
 | PTrig of nat
 | PSend of nat
 | PM0 of kont
@@ -432,7 +442,7 @@ type pc =
 | PM4 of nat * fin * kont
 | PRel of nat * outcome * kont
 | PLast of nat * outcome * kont
-| PRun of nat list * outcome * kont
+| PRun of nat list * nat * outcome * kont
 | PUnl of outcome
 | PCFlag
 | PCLock
@@ -441,7 +451,7 @@ type pc =
 | PC4
 | PC5 of nat
 | PC6 of nat
-| PCSwapped of nat
+| PCSwapped of nat * nat
 | PC8 of nat
 | PRIdle
 | PRRecv
@@ -491,6 +501,8 @@ val st_fin : st -> fin -> st
 
 val upd_st : shared -> nat -> st -> shared
 
+val upd_h : shared -> nat -> hnd -> shared
+
 val close_h : hnd -> hnd
 
 val close_all : hnd list -> nat list -> hnd list
@@ -503,19 +515,36 @@ val first_index : shared -> st -> nat
 
 val seg_for : shared -> nat list -> nat -> nat option -> nat option
 
-val get_log : shared -> st -> nat -> outcome
+val find_log : shared -> st -> nat -> nat option
+
+val read_log : shared -> nat -> nat -> outcome
 
 val split_head : shared -> nat -> nat -> nat list -> nat list * nat list
+
+val split_tail : shared -> nat -> nat list -> nat list * nat list
 
 val new_hnd : nat -> hnd
 
 val mk_state : nat list -> nat -> st
 
+val empty_state : st
+
 val publish : shared -> st -> shared
 
-val do_rotate : shared -> nat -> shared * fin
+val do_rotate : shared -> nat -> shared * nat list
 
-val do_trunc_head : shared -> nat -> nat -> shared * fin
+val do_trunc_head : shared -> nat -> nat -> shared * nat list
+
+val seal_h : hnd -> hnd
+
+val do_trunc_tail : shared -> nat -> nat -> shared * nat list
+
+type dkind =
+| DNoop
+| DHead of nat
+| DTail of nat
+
+val classify : shared -> st -> op -> dkind
 
 val cur_op : thread -> op option
 
@@ -528,6 +557,10 @@ val panic : thread -> thread
 val is_locking : op -> bool
 
 val continue : thread -> outcome -> kont -> thread
+
+val with_ents : hnd -> nat list -> bool -> hnd
+
+val with_io : hnd -> nat -> nat -> nat -> hnd
 
 val step_thread : shared -> tid -> thread -> (shared * thread) option
 
@@ -616,6 +649,8 @@ val parse_sched : str -> tid list option
 val run_c14 : str list -> str
 
 val k_c14 : str
+
+val k_c06 : str
 
 val run_sched : str list -> str
 
